@@ -87,6 +87,9 @@ impl Cat for String {
             // random length 0..9 so that the end lands on every residue
             let n = rng.below(10) as usize;
             "abcdefghi"[..n].to_string()
+        } else if rng.chance(1, 5) {
+            // a large space of distinct strings (map keys)
+            format!("k{}", rng.below(100000))
         } else {
             rng.pick(STRINGS).to_string()
         }
@@ -121,10 +124,23 @@ impl Cat for SignatureWrapper<String> {
     }
 }
 
+/// `size >= LONG`: the OUTERMOST container gets 65..=80 elements (more than the 64 nesting levels a decoder may count:
+/// a depth counter that is not restored after each element shows up here), its elements are generated with `size - LONG`
+pub const LONG: usize = 1000;
+pub fn container_len(rng: &mut Prng, size: usize) -> (u64, usize) {
+    if size >= LONG {
+        (65 + rng.below(16), size - LONG)
+    } else if size == 0 {
+        (0, 0)
+    } else {
+        (rng.below(4), size - 1)
+    }
+}
+
 impl<E: Cat> Cat for Vec<E> {
     fn gen(rng: &mut Prng, size: usize) -> Self {
-        let n = if size == 0 { 0 } else { rng.below(4) };
-        (0..n).map(|_| E::gen(rng, size - 1)).collect()
+        let (n, inner) = container_len(rng, size);
+        (0..n).map(|_| E::gen(rng, inner)).collect()
     }
     fn to_val(&self) -> Val {
         Val::Arr(self.iter().map(|e| e.to_val()).collect())
@@ -136,10 +152,15 @@ impl<E: Cat> Cat for Vec<E> {
 
 impl<K: Cat + std::hash::Hash + Eq, V: Cat> Cat for HashMap<K, V> {
     fn gen(rng: &mut Prng, size: usize) -> Self {
-        let n = if size == 0 { 0 } else { rng.below(4) };
+        let (n, inner) = container_len(rng, size);
         let mut m = HashMap::new();
-        for _ in 0..n {
-            m.insert(K::gen(rng, 0), V::gen(rng, size - 1));
+        let mut tries = 0;
+        while (m.len() as u64) < n && tries < 40 * n {
+            tries += 1;
+            m.insert(K::gen(rng, 0), V::gen(rng, inner));
+            if size < LONG && tries >= n {
+                break;
+            }
         }
         m
     }
